@@ -152,14 +152,14 @@ def tree_to_coq(n) -> str:
         for k, c in n.children.items():
             key = f'(KIdx {k})' if type(k) is int else f'(KVal {val_to_coq(k)})'
             ch.append(f'({key}, {tree_to_coq(c)})')
-        # the two sets are handed to the model in the one order a deterministic report can use: sorted by their text
         for m in n.missing:
             if not isinstance(m, str):
                 raise Unsupported('non-str missing')
         if len({str(x) for x in n.extra}) != len(n.extra):
             raise Unsupported('unexpected keys with the same text')
-        missing = [coq_str(m) for m in sorted(n.missing)]
-        extra = [val_to_coq(x) for x in sorted(n.extra, key=str)]
+        # (the model sorts them itself: Model/RenderSort.v)
+        missing = [coq_str(m) for m in n.missing]
+        extra = [val_to_coq(x) for x in n.extra]
         return (f'(EProduct {coq_str(n.expected)} {coq_list(ch)} {val_to_coq(n.actual)} '
                 f'{coq_list(missing)} {coq_list(extra)})')
     if isinstance(n, E.SumErrorNode):
